@@ -44,12 +44,30 @@ DeliveredOK(d, lo, hi, upto) ==
 DeliveredAll(d, lo, hi, upto) ==
   \E k \in lo..hi : d = Owed(k, upto)
 
-(* C04: packets are withheld from a consumer only in runs that begin at the
-   start of a key frame and end just before the start of a key frame: the first
-   packet withheld and the first packet given after a withheld run are key.     *)
-DropsAligned(d, k, upto) ==
-  LET live == SelectSeq(d, LAMBDA i : i > k)        \* strictly increasing by DeliveredOK-like order
-  IN \A j \in 1..Len(live) :
-       LET prev == IF j = 1 THEN k ELSE live[j - 1] IN
-       live[j] # prev + 1 => (Pkts[prev + 1] = "key" /\ Pkts[live[j]] = "key")
+(* C04: "dropping begins and ends only at the start of a key frame, so after any
+   drop the next video data it is given starts a key frame": the live part may
+   have holes, but every hole starts at a key packet and is followed by one.   *)
+Min(a, b) == IF a < b THEN a ELSE b
+AlignedLive(live, k, upto) ==
+  \A j \in 1..Len(live) :
+    LET prev == IF j = 1 THEN k ELSE live[j - 1] IN
+    /\ live[j] > prev /\ live[j] <= upto
+    /\ live[j] # prev + 1 => (Pkts[prev + 1] = "key" /\ Pkts[live[j]] = "key")
+DeliveredOKDrops(d, lo, hi, upto) ==
+  d = <<>> \/ \E k \in lo..hi :
+     LET r == ReplayAt(k)
+         n == Min(Len(d), Len(r))
+     IN /\ SubSeq(d, 1, n) = SubSeq(r, 1, n)
+        /\ Len(d) > Len(r) => AlignedLive(SubSeq(d, Len(r) + 1, Len(d)), k, upto)
+
+(* "For a stream whose video has a key frame at least every G packets the stalled
+   consumer's backlog never exceeds the fixed limit plus one GOP plus the join
+   replay".  G of a packet sequence: the largest distance from a position to the
+   next key packet (only positions before the last key count).                 *)
+KeyPos == {i \in 1..Len(Pkts) : Pkts[i] = "key"}
+LastKey == IF KeyPos = {} THEN 0 ELSE CHOOSE i \in KeyPos : \A j \in KeyPos : j <= i
+G == IF KeyPos = {} THEN 0
+     ELSE LET next(i) == CHOOSE j \in KeyPos : j > i /\ \A m \in KeyPos : m > i => j <= m
+          IN LET ds == {next(i) - i : i \in 0..(LastKey - 1)} IN CHOOSE d \in ds : \A e \in ds : e <= d
+BacklogOK(qlen, maxq, replaylen, upto) == upto <= LastKey => qlen <= maxq + G + replaylen
 ================================================================================
